@@ -634,6 +634,8 @@ typedef struct {
 	uint64_t prime_id[MAXE]; int prime_seen[MAXE];
 	conf_t view; int ndeliv, ndeliv_cb, ndeliv_h;
 	int prime_done;
+	conf_t last_pushed[MAXE]; int pushed[MAXE];   /* mode 5: what each endpoint pushed last */
+	int user_consolidate, ncons;
 } bworld_t;
 static bworld_t B;
 
@@ -657,6 +659,63 @@ static int b_conf_cb(KSI_CTX *ctx, KSI_Config *cfg) {
 static int b_conf_cb_other(KSI_CTX *ctx, KSI_Config *cfg) {
 	(void)ctx; (void)cfg;
 	conf_fail("conf-delivered-to-wrong-callback", "the consolidated configuration of this HA service was handed to the context's callback for the OTHER kind of service (aggregator / extender mixed up)");
+	return KSI_OK;
+}
+/* mode 5: the application consolidates itself (KSI_ASYNC_OPT_CONF_CONSOLIDATE_CALLBACK). It is told which endpoint pushed what and is
+ * given the service's running configuration to update; here it applies the same fold as the default through the public setters */
+static void set_field(KSI_CTX *ctx, KSI_Config *cfg, int f, int64_t v) {
+	KSI_Integer *old = NULL, *nw = NULL;
+	switch (f) {
+		case F_LEVEL: KSI_Config_getMaxLevel(cfg, &old); break;
+		case F_PERIOD: KSI_Config_getAggrPeriod(cfg, &old); break;
+		case F_REQS: KSI_Config_getMaxRequests(cfg, &old); break;
+		case F_FIRST: KSI_Config_getCalendarFirstTime(cfg, &old); break;
+		default: KSI_Config_getCalendarLastTime(cfg, &old); break;
+	}
+	if (get_int(old) == v) return;
+	KSI_Integer_free(old);
+	if (v >= 0 && KSI_Integer_new(ctx, (KSI_uint64_t)v, &nw) != KSI_OK) vf_harness_error("integer");
+	switch (f) {
+		case F_LEVEL: KSI_Config_setMaxLevel(cfg, nw); break;
+		case F_PERIOD: KSI_Config_setAggrPeriod(cfg, nw); break;
+		case F_REQS: KSI_Config_setMaxRequests(cfg, nw); break;
+		case F_FIRST: KSI_Config_setCalendarFirstTime(cfg, nw); break;
+		default: KSI_Config_setCalendarLastTime(cfg, nw); break;
+	}
+}
+static void ref_fold(conf_t *acc, const conf_t *c);
+static int kind_has(int kind, int f);
+static int b_consolidate_cb(KSI_CTX *ctx, size_t id, void *userp, KSI_Config *haConfig, KSI_Config *respConfig) {
+	conf_t cur, resp;
+	int f;
+	(void)userp;
+	B.ncons++;
+	if (haConfig == NULL || respConfig == NULL) { conf_fail("conf-consolidate-callback-args", "the application's consolidation callback was called without the running or the pushed configuration"); return KSI_OK; }
+	read_config(haConfig, &cur);
+	read_config(respConfig, &resp);
+	/* the id is the opaque endpoint id of the sub-service that received the push (the same value KSI_AsyncHandle_getParentId reports);
+	 * it is resolved through the sub-service list the HA service hands out */
+	{
+		KSI_LIST(KSI_AsyncService) *subs = NULL;
+		size_t i, sid = 0;
+		int e = -1;
+		if (KSI_AsyncService_getOption(B.ha, KSI_ASYNC_OPT_HA_SUBSERVICE_LIST, (void *)&subs) != KSI_OK || subs == NULL) vf_harness_error("sub-service list");
+		for (i = 0; i < KSI_AsyncServiceList_length(subs); i++) {
+			KSI_AsyncService *as = NULL;
+			KSI_AsyncServiceList_elementAt(subs, i, &as);
+			if (as && KSI_AsyncService_getOption(as, KSI_ASYNC_PRIVOPT_ENDPOINT_ID, (void *)&sid) == KSI_OK && sid == id) e = ep_of_host(((TcpAsyncCtx *)sid)->host);
+		}
+		id = e < 0 ? (size_t)MAXE : (size_t)e;
+	}
+	if (id >= (size_t)B.nE || !B.pushed[id]) conf_fail("conf-consolidate-callback-endpoint", "the application's consolidation callback names an endpoint that has not pushed a configuration");
+	else for (f = 0; f < NF; f++) {
+		int64_t want = B.last_pushed[id].v[f];
+		if (!kind_has(B.kind, f)) continue;
+		if (want == 0) want = -1;
+		if (resp.v[f] != want) { char m[300]; snprintf(m, sizeof m, "the application's consolidation callback is told that endpoint %zu pushed %s = %lld, the endpoint's last push carried %lld", id, FNAME[f], (long long)resp.v[f], (long long)want); conf_fail("conf-consolidate-callback-values", m); }
+	}
+	ref_fold(&cur, &resp);
+	for (f = 0; f < NF; f++) if (kind_has(B.kind, f)) set_field(ctx, haConfig, f, cur.v[f]);
 	return KSI_OK;
 }
 static void b_after_send(sn_conn *c) {
@@ -700,10 +759,11 @@ static void b_open(int kind, int nE, int mode) {
 	KSI_AsyncHandle *h = NULL;
 	int e, r, setup = (mode == 3);   /* mode 3: handle delivery on a service whose first endpoint was given with KSI_AsyncService_setEndpoint */
 	int ctxcb = (mode == 4);         /* mode 4: callback delivery through the callback registered on the CONTEXT for this kind of service */
+	int usercons = (mode == 5);      /* mode 5: callback delivery, the application consolidates (KSI_ASYNC_OPT_CONF_CONSOLIDATE_CALLBACK) */
 	if (setup) mode = 1;
-	if (ctxcb) mode = 0;
+	if (ctxcb || usercons) mode = 0;
 	memset(&B, 0, sizeof B);
-	B.kind = kind; B.nE = nE; B.mode = mode;
+	B.kind = kind; B.nE = nE; B.mode = mode; B.user_consolidate = usercons;
 	conf_clear(&B.view);
 	sn_reset(); fc_reset();
 	sn.after_send = b_after_send;
@@ -717,6 +777,7 @@ static void b_open(int kind, int nE, int mode) {
 	}
 	KSI_AsyncService_setOption(B.ha, KSI_ASYNC_OPT_MAX_REQUEST_COUNT, (void *)(size_t)8);
 	if (mode == 0 && !ctxcb && KSI_AsyncService_setOption(B.ha, KSI_ASYNC_OPT_PUSH_CONF_CALLBACK, (void *)b_conf_cb) != KSI_OK) vf_harness_error("callback option");
+	if (usercons && KSI_AsyncService_setOption(B.ha, KSI_ASYNC_OPT_CONF_CONSOLIDATE_CALLBACK, (void *)b_consolidate_cb) != KSI_OK) vf_harness_error("consolidate callback option");
 	if (ctxcb) {
 		/* the callback of the other kind of service is registered as well: it must never see this service's configuration */
 		if (KSI_CTX_setOption(B.ctx, kind == RP_AGGR ? KSI_OPT_AGGR_CONF_RECEIVED_CALLBACK : KSI_OPT_EXT_CONF_RECEIVED_CALLBACK, (void *)b_conf_cb) != KSI_OK) vf_harness_error("context callback");
@@ -766,6 +827,7 @@ static void b_push(int e, const conf_t *c) {
 	vbuf b, payload;
 	rp_env env;
 	if (!conn) vf_harness_error("no connection to endpoint %d", e);
+	B.last_pushed[e] = *c; B.pushed[e] = 1;
 	b_env(&env);
 	vb_init(&b); vb_init(&payload);
 	if (B.kind == RP_AGGR) rp_aggr_conf_payload(&payload, c->v[F_LEVEL], -1, c->v[F_PERIOD], c->v[F_REQS], NULL);
@@ -812,6 +874,10 @@ static void b_sequence(int kind, int nE, int mode, int n, const conf_t *seq, con
 			}
 		}
 	}
+	if (B.user_consolidate) {
+		if (B.ncons != n) { char m[200]; snprintf(m, sizeof m, "%d configurations were pushed, the application's consolidation callback ran %d time(s)", n, B.ncons); conf_fail("conf-consolidate-callback-count", m); }
+		else vf_outcome("conf:consolidated-by-application");
+	}
 	if (B.ndeliv_cb) vf_outcome("conf:deliver:callback");
 	if (B.ndeliv_h) vf_outcome("conf:deliver:handle");
 	*final = B.view;
@@ -834,7 +900,7 @@ static void b_multiset(int kind, int nE, int n, const conf_t *cfg, const int *ep
 	int mode, f, j, distinct_eps = 1, nperm_total = 0;
 	int bad[NF] = {0};
 	for (j = 0; j < n; j++) { int i; for (i = 0; i < j; i++) if (eps[i] == eps[j]) distinct_eps = 0; }
-	for (mode = 0; mode < 5; mode++) {
+	for (mode = 0; mode < 6; mode++) {
 		int p[3] = {0, 1, 2}, first = 1;
 		conf_t ref_final;
 		char first_order[8] = "";
